@@ -185,6 +185,22 @@ def reindex_database(
         # Only some files were looked at, so keep what we know about the rest.
         file_to_hash = old_file_to_hash | file_to_hash
 
+    # Compile every new / changed file and refuse the whole run BEFORE we touch
+    # the DB at all. Otherwise, files that happen to come before a broken one
+    # would be (re)indexed without ever reaching the hash map (which is only
+    # written at the very end), e.g. a new file that gets deleted again before
+    # the next successful run would stay in the index forever.
+    changed_pages: dict[str, Page] = {}
+    for zorg_page_name, hash_ in file_to_hash.items():
+        if old_file_to_hash.get(zorg_page_name) != hash_:
+            zorg_page = walk_zorg_page(
+                cmd.zettel_dir, Path(zorg_page_name), verbose=cmd.verbose
+            )
+            zorg_page_path_str = c.strip_zdir(cmd.zettel_dir, zorg_page.path)
+            if zorg_page.has_errors and zorg_page_path_str not in error_files:
+                raise RuntimeError(f"Zorg file has errors!: {zorg_page.path}")
+            changed_pages[zorg_page_name] = zorg_page
+
     for zorg_page_name, hash_ in file_to_hash.copy().items():
         # If this file has never been indexed OR the file contents have changed
         # since the last time it was indexed.
@@ -193,14 +209,8 @@ def reindex_database(
             or old_file_to_hash[zorg_page_name] != hash_
         ):
             num_of_updates += 1
-            zorg_page = walk_zorg_page(
-                cmd.zettel_dir, Path(zorg_page_name), verbose=cmd.verbose
-            )
+            zorg_page = changed_pages[zorg_page_name]
             zorg_page_path_str = c.strip_zdir(cmd.zettel_dir, zorg_page.path)
-            if zorg_page.has_errors and zorg_page_path_str not in error_files:
-                # Refuse the file BEFORE we touch the DB, so the index keeps
-                # the last good version of it instead of a half-removed one.
-                raise RuntimeError(f"Zorg file has errors!: {zorg_page.path}")
 
             old_zorg_page = session.repo.remove_file_by_name(zorg_page_name)
             if old_zorg_page is not None:
